@@ -6,6 +6,8 @@ namespace AIToolbox::Factored::MDP {
     CooperativeMaximumLikelihoodModel::CooperativeMaximumLikelihoodModel(const CooperativeExperience & exp, const double discount, const bool toSync)
             : experience_(exp), discount_(discount), transitions_({experience_.getGraph(), {}})
     {
+        setDiscount(discount);
+
         const auto & S = experience_.getS();
         auto & tProbs = transitions_.transitions;
 
@@ -164,7 +166,10 @@ namespace AIToolbox::Factored::MDP {
         }
     }
 
-    void CooperativeMaximumLikelihoodModel::setDiscount(const double d) { discount_ = d; }
+    void CooperativeMaximumLikelihoodModel::setDiscount(const double d) {
+        if ( !(d > 0.0 && d <= 1.0) ) throw std::invalid_argument("Discount parameter must be in (0,1]");
+        discount_ = d;
+    }
     double CooperativeMaximumLikelihoodModel::getDiscount() const { return discount_; }
 
     const State & CooperativeMaximumLikelihoodModel::getS() const { return experience_.getS(); }
